@@ -4,8 +4,8 @@ package ice
 
 import (
 	"bytes"
-	"io"
 	"errors"
+	"io"
 
 	"github.com/RoaringBitmap/roaring"
 	segment "github.com/blugelabs/bluge_segment_api"
